@@ -68,15 +68,6 @@ impl IndexMap<DFAId, usize> {
     { unimplemented!() }
 }
 
-impl DFA {
-    /// the any-word transitions (a filter_map over iter_transitions): the vector of what it yields
-    #[verifier::external_body]
-    fn iter_top_level_star_transitions(&self) -> (r: Vec<(StateId, StateId)>)
-        requires dfa_wf(*self)
-        ensures forall|p: (u32, u32)| r@.contains(p) <==> star_tr(*self, p)
-    { unimplemented!() }
-}
-
 /// the empty string can be interned (`ustr("")` returns such a value)
 #[verifier::external_body]
 pub proof fn axiom_empty_ustr_exists()
